@@ -4,6 +4,7 @@ CONSTANTS
   MaxLen = 2
   KeyMode = "noargs"
   StoreMode = "store"
+  HitMode = "identity"
   Random = FALSE
 INIT Init
 NEXT Next
